@@ -29,7 +29,7 @@ import b3spec  # noqa: E402
 
 DRIVER_SRC = os.path.join(common.VERIF, "lib", "replay_driver")
 TOTAL_BUDGET_S = float(os.environ.get("VERIF_SEARCH_BUDGET", "170"))   # whole find(), build included
-BUILD_TIMEOUT_S = 150
+BUILD_TIMEOUT_S = 900      # generous: a loaded machine must not turn a slow build into "nothing found"
 U64 = (1 << 64) - 1
 
 # SIMD levels, selected with the crate's stock features
@@ -1410,7 +1410,13 @@ def find(prop, fo, seed):
             if time.time() > deadline - 8:
                 log.setdefault("note", "time budget exhausted before variant %s" % v)
                 break
+            tw = time.time()
             binp, err = builds.get(feats_of[v])
+            # time spent blocked on a build does not count against the search budget (bounded: 15 min in total)
+            waited = time.time() - tw
+            if waited > 1 and log.setdefault("build_wait_s", 0) < 900:
+                log["build_wait_s"] = round(log["build_wait_s"] + waited, 1)
+                deadline += waited
             # build one variant ahead while this one is searched
             if vi >= 1 and vi + 1 < len(variants) and time.time() < deadline - 40:
                 builds.start(feats_of[variants[vi + 1]])
